@@ -14,11 +14,11 @@ DERIVE_RE = re.compile(r'^#\[derive\(\{\}\)\]\n$')
 
 
 class Emission:
-    def __init__(self, site, acc, value):
+    def __init__(self, site, acc, value, arguments=False):
         self.site = site
         self.acc = acc
-        self.value = value          # stripped term of the appended &str
-        self.fmt = fmt.format_of(value)
+        self.value = value          # stripped term of the appended &str (or of the fmt::Arguments for write!)
+        self.fmt = fmt.arguments_of(value) if arguments else fmt.format_of(value)
         self.template = fmt.template_s(self.fmt[0]) if self.fmt else None
         self.args = [a for a in self.fmt[1]] if self.fmt else []
         self.kind = self._classify()
@@ -66,7 +66,7 @@ class Renderer:
             if "options::Options" in ins and f["output"].get("adt") == "std::string::String":
                 cands.append(lib.bodies[path])
         self.option_fns = sorted(b.name for b in cands)
-        with_push = [b for b in cands if any(cname(c.node) == "std::string::String::push_str" for c in b.calls())]
+        with_push = [b for b in cands if any(cname(c.node) in ("std::string::String::push_str", "std::fmt::Write::write_fmt") for c in b.calls())]
         self.ok = len(with_push) == 1
         if not self.ok:
             self.problems.append("expected one emitting function with an &Options parameter, found %s" % [b.name for b in with_push])
@@ -95,6 +95,16 @@ class Renderer:
                 v = strip(term_of(b, cs.node["args"][1]), mir.TRANSPARENT_CALLS + ("std::hint::must_use",))
                 self.emissions.append(Emission(cs, root["l"], v))
                 accs.add(root["l"])
+        for cs in b.calls():
+            if cname(cs.node) == "std::fmt::Write::write_fmt" and arg_ty(b, cs.node["args"][0]).get("adt") == "std::string::String":
+                p = mir.op_place(cs.node["args"][0])
+                root = b.through_ref(p) if p is not None else None
+                if root is None or root["p"]:
+                    self.problems.append("write! onto something that is not a local String at %s" % cs.loc())
+                    continue
+                self.emissions.append(Emission(cs, root["l"], term_of(b, cs.node["args"][1]), arguments=True))
+                accs.add(root["l"])
+        self.emissions.sort(key=lambda e: e.site.bb)
         self.accs = accs
         self.child_acc = None
         others = accs - {self.main}
